@@ -2264,3 +2264,187 @@ def gen_loops():
                                   'end Opy.Gen', ''])
     data['persist'] = dict(save=sv, load=ld)
     return texts, data
+
+
+# ------------------------------------------------------------------ state that outlives a call (C05, C18)
+MUTATORS = {'append', 'extend', 'insert', 'pop', 'remove', 'clear', 'update', 'setdefault', 'add', 'discard', 'popitem', 'sort', 'reverse',
+            '__setitem__', '__delitem__', 'appendleft', 'popleft'}
+CACHE_DECOS = ('lru_cache', 'cache', 'cached_property', 'functools.lru_cache', 'functools.cache', 'functools.cached_property')
+
+
+def _is_container(v):
+    if isinstance(v, (ast.Dict, ast.List, ast.Set, ast.ListComp, ast.DictComp, ast.SetComp)):
+        return True
+    if isinstance(v, ast.Call):
+        f = ast.unparse(v.func)
+        return f in ('dict', 'list', 'set', 'defaultdict', 'collections.defaultdict', 'OrderedDict', 'collections.OrderedDict',
+                     'collections.deque', 'deque', 'bytearray', 'np.zeros', 'np.empty', 'np.ones', 'np.array', 'WeakValueDictionary',
+                     'weakref.WeakValueDictionary', 'weakref.WeakKeyDictionary')
+    return False
+
+
+def extract_hidden_state(repo=None):
+    repo = repo or REPO
+    """state that outlives a call and can carry information from one call / task / object to the next without being an
+    argument: module-level containers that some function writes to, `global` / `nonlocal` rebinding of module names, caching
+    decorators, attributes set on functions or classes at run time, class-level containers written through instances, mutable
+    default arguments that are written to -> sorted [(module, where, what)]"""
+    out = []
+    root = os.path.join(repo, 'opytimizer')
+    for dp, _, files in sorted(os.walk(root)):
+        for fl in sorted(files):
+            if not fl.endswith('.py'):
+                continue
+            path = os.path.join(dp, fl)
+            mod = os.path.relpath(path, repo)[:-3].replace('/', '.')
+            try:
+                t = ast.parse(open(path).read())
+            except SyntaxError:
+                out.append((mod, '?', 'unparsable'))
+                continue
+            mod_containers, mod_names, mod_funcs, classes = set(), set(), set(), {}
+            for st in t.body:
+                if isinstance(st, (ast.Assign, ast.AnnAssign)):
+                    tgts = st.targets if isinstance(st, ast.Assign) else [st.target]
+                    for tg in tgts:
+                        if isinstance(tg, ast.Name):
+                            mod_names.add(tg.id)
+                            if st.value is not None and _is_container(st.value):
+                                mod_containers.add(tg.id)
+                elif isinstance(st, (ast.FunctionDef, ast.AsyncFunctionDef)):
+                    mod_funcs.add(st.name)
+                elif isinstance(st, ast.ClassDef):
+                    cc = set()
+                    for b in st.body:
+                        if isinstance(b, (ast.Assign, ast.AnnAssign)):
+                            tgts = b.targets if isinstance(b, ast.Assign) else [b.target]
+                            for tg in tgts:
+                                if isinstance(tg, ast.Name) and b.value is not None and _is_container(b.value):
+                                    cc.add(tg.id)
+                    classes[st.name] = cc
+            imported = {}
+            for st in ast.walk(t):
+                if isinstance(st, ast.Import):
+                    for a in st.names:
+                        imported[a.asname or a.name.split('.')[0]] = a.name
+                elif isinstance(st, ast.ImportFrom):
+                    for a in st.names:
+                        imported[a.asname or a.name] = (st.module or '') + '.' + a.name
+
+            def scan(fn, where, cls):
+                local = {a.arg for a in fn.args.args + fn.args.kwonlyargs} | ({fn.args.vararg.arg} if fn.args.vararg else set()) \
+                    | ({fn.args.kwarg.arg} if fn.args.kwarg else set())
+                for n in ast.walk(fn):
+                    if isinstance(n, ast.Name) and isinstance(n.ctx, ast.Store):
+                        local.add(n.id)
+                globs = set()
+                for n in ast.walk(fn):
+                    if isinstance(n, (ast.Global, ast.Nonlocal)):
+                        globs |= set(n.names)
+                        out.append((mod, where, ('global ' if isinstance(n, ast.Global) else 'nonlocal ') + ', '.join(n.names)))
+                local -= globs
+                # mutable defaults that the body writes to
+                defaults = {}
+                pos = fn.args.args
+                for a, dflt in zip(pos[len(pos) - len(fn.args.defaults):], fn.args.defaults):
+                    if _is_container(dflt):
+                        defaults[a.arg] = True
+                for a, dflt in zip(fn.args.kwonlyargs, fn.args.kw_defaults):
+                    if dflt is not None and _is_container(dflt):
+                        defaults[a.arg] = True
+
+                def base_of(e):
+                    while isinstance(e, (ast.Subscript, ast.Attribute)):
+                        prev = e
+                        e = e.value
+                    return e
+
+                def shared(e):
+                    """-> description if the expression `e` (a container being written) is state shared across calls"""
+                    if isinstance(e, ast.Name):
+                        if e.id in defaults:
+                            return f'mutable default argument {e.id}'
+                        if e.id in mod_containers and e.id not in local:
+                            return f'module-level container {e.id}'
+                        return None
+                    if isinstance(e, ast.Attribute) and isinstance(e.value, ast.Name):
+                        b = e.value.id
+                        if b in imported and b not in local and not b in ('self', 'cls'):
+                            return f'container {ast.unparse(e)} of module {imported[b]}'
+                        if b in classes and e.attr in classes[b]:
+                            return f'class-level container {b}.{e.attr}'
+                        if b in ('self', 'cls') and cls and e.attr in classes.get(cls, ()):
+                            return f'class-level container {cls}.{e.attr}'
+                        if b == 'cls' or (b in classes):
+                            return None
+                    return None
+                for n in ast.walk(fn):
+                    tgts = []
+                    if isinstance(n, ast.Assign):
+                        tgts = n.targets
+                    elif isinstance(n, (ast.AugAssign, ast.AnnAssign)):
+                        tgts = [n.target]
+                    elif isinstance(n, ast.Delete):
+                        tgts = n.targets
+                    for tg in tgts:
+                        for e in (tg.elts if isinstance(tg, ast.Tuple) else [tg]):
+                            if isinstance(e, ast.Subscript):
+                                d = shared(e.value)
+                                if d:
+                                    out.append((mod, where, 'writes ' + d))
+                            if isinstance(e, ast.Attribute) and isinstance(e.value, ast.Name):
+                                b = e.value.id
+                                if b in mod_funcs or (b in classes) or b == 'cls' or (b in imported and b not in local):
+                                    out.append((mod, where, f'sets attribute {ast.unparse(e)} on a function / class / module'))
+                    if isinstance(n, ast.Call) and isinstance(n.func, ast.Attribute) and n.func.attr in MUTATORS:
+                        d = shared(n.func.value)
+                        if d:
+                            out.append((mod, where, f'{n.func.attr}() on ' + d))
+                    if isinstance(n, ast.Call) and ast.unparse(n.func) in ('setattr',) and n.args and isinstance(n.args[0], ast.Name) \
+                            and (n.args[0].id in mod_funcs or n.args[0].id in classes or n.args[0].id == 'cls'):
+                        out.append((mod, where, f'setattr on {n.args[0].id}'))
+
+            def visit(node, fname, cls):
+                for ch in ast.iter_child_nodes(node):
+                    if isinstance(ch, (ast.FunctionDef, ast.AsyncFunctionDef)):
+                        w = (fname + '.' if fname else '') + ch.name
+                        for dco in ch.decorator_list:
+                            u = ast.unparse(dco.func if isinstance(dco, ast.Call) else dco)
+                            if u in CACHE_DECOS or u.split('.')[-1] in ('lru_cache', 'cache', 'cached_property', 'memoize', 'memoized'):
+                                out.append((mod, w, f'caching decorator {u}'))
+                        scan(ch, w, cls)
+                    elif isinstance(ch, ast.ClassDef):
+                        visit(ch, (fname + '.' if fname else '') + ch.name, ch.name)
+            visit(t, '', None)
+            # module-level code that is not a definition, an import, a constant or a logger: objects created at import time
+            for st in t.body:
+                if isinstance(st, ast.Assign) and isinstance(st.value, ast.Call):
+                    f = ast.unparse(st.value.func)
+                    if not (f.endswith('get_logger') or f.endswith('getLogger') or f.startswith('logging.') or _is_container(st.value)
+                            or f in ('float', 'int', 'str', 'tuple', 'frozenset', 'np.finfo', 'namedtuple', 'collections.namedtuple', 'TypeVar')):
+                        out.append((mod, '<module>', f'object created at import time: {ast.unparse(st.targets[0])} = {f}(…)'))
+    return sorted(set(out))
+
+
+
+
+_old_gen_loops16 = gen_loops
+
+
+def gen_loops():
+    texts, data = _old_gen_loops16()
+    hs = extract_hidden_state()
+    # appended to the effects files: a definition and its own obligation (its own module, see translate.split_parts)
+    texts['EffectsDefs'] = texts['EffectsDefs'].replace('end Opy.Gen', '\n'.join([
+        '/-- state that outlives a call without being an argument or an attribute of the object the call is made on: module-level',
+        '    containers written by functions, `global` rebinding, caching decorators, attributes set on functions / classes /',
+        '    modules, class-level containers, written mutable defaults, objects created at import time: (module, where, what) -/',
+        'def hiddenState : List (String × String × String) := [',
+        ',\n'.join(f'  ({lean_str(a)}, {lean_str(b)}, {lean_str(c)})' for a, b, c in hs), ']', '', 'end Opy.Gen']), 1)
+    texts['Effects'] = texts['Effects'].replace('end Opy.Gen', '\n'.join([
+        '/-- no function of the library keeps state between calls outside its arguments and the objects it is called on: what a',
+        '    call returns cannot depend on which calls, tasks or objects came before it in the process -/',
+        'theorem hiddenState_none : hiddenState = [] := by decide +kernel',
+        'end Opy.Gen']), 1)
+    data['hidden_state'] = hs
+    return texts, data
